@@ -13,6 +13,8 @@ import PPVerif.Generated.C11
 import Mathlib.Tactic.Ring
 import Mathlib.Tactic.LinearCombination
 import Mathlib.Algebra.Star.Basic
+import Mathlib.Algebra.CharZero.Defs
+import Mathlib.Tactic.FieldSimp
 
 namespace PPVerif.Props.C11
 open PPVerif.Generated.C11
@@ -58,6 +60,28 @@ theorem C11_positive_sequence_phases (a asq v : K) :
     phA a asq 0 v 0 = v ∧ phB a asq 0 v 0 = asq * v ∧ phC a asq 0 v 0 = a * v := by
   unfold phA phB phC
   refine ⟨by ring, by ring, by ring⟩
+
+/-- **sequence networks decouple for symmetric elements**: an element with equal self impedances zs and equal mutual
+    impedances zm (lines, transformers, symmetric loads) maps zero / positive / negative sequence currents to voltage drops of
+    the same sequence only, with z0 = zs + 2 zm and z1 = z2 = zs − zm — the reason runpp_3ph may solve three single-phase
+    networks and the symmetric power flow only the positive-sequence one -/
+theorem C11_sequence_decoupling (a asq zs zm ia ib ic : K) (hs : asq = a ^ 2) (h0 : 1 + a + a ^ 2 = 0) :
+    sq0 a asq (zs * ia + zm * ib + zm * ic) (zm * ia + zs * ib + zm * ic) (zm * ia + zm * ib + zs * ic) =
+      (zs + 2 * zm) * sq0 a asq ia ib ic ∧
+    sq1 a asq (zs * ia + zm * ib + zm * ic) (zm * ia + zs * ib + zm * ic) (zm * ia + zm * ib + zs * ic) =
+      (zs - zm) * sq1 a asq ia ib ic ∧
+    sq2 a asq (zs * ia + zm * ib + zm * ic) (zm * ia + zs * ib + zm * ic) (zm * ia + zm * ib + zs * ic) =
+      (zs - zm) * sq2 a asq ia ib ic := by
+  subst hs
+  unfold sq0 sq1 sq2
+  refine ⟨by ring, ?_, ?_⟩
+  · linear_combination (zm * (ia + ib + ic)) * h0
+  · linear_combination (zm * (ia + ib + ic)) * h0
+
+/-- self / mutual impedance from the zero and positive sequence data of the element tables (r0, x0 / r, x) and back -/
+theorem C11_self_mutual_from_sequence [CharZero K] (z0 z1 : K) :
+    ((z0 + 2 * z1) / 3) + 2 * ((z0 - z1) / 3) = z0 ∧ ((z0 + 2 * z1) / 3) - ((z0 - z1) / 3) = z1 := by
+  constructor <;> ring
 
 section power
 variable [StarRing K]
